@@ -25,8 +25,10 @@ def _cases(tier):
             if n == 0 and lc != "short":
                 continue
             for co in CO:
-                for arrival in ("samples", "list", "two_lists"):
+                for arrival in ("samples", "list", "two_lists", "samples_reversed"):
                     if arrival in ("list", "two_lists") and co == "absent":
+                        continue
+                    if arrival == "samples_reversed" and (co not in ("absent", "null") or n == 0):
                         continue
                     if arrival == "two_lists" and n < 2:
                         continue
@@ -83,6 +85,10 @@ def _samples(case, strs):
     out = [{"a": s} for s in strs]
     for e in extra:
         out.append({} if e == "<absent>" else {"a": e})
+    if case.get("arrival") == "samples_reversed":
+        # the co-occupant (absent / null) first, the special-length string last: the position is already Optional[short literals]
+        # when the long string arrives
+        out = out[::-1]
     return out or [{"b": 1}]
 
 
@@ -104,10 +110,11 @@ def _has_str(h):
     return any(_has_str(a) for a in typing.get_args(h) or ())
 
 
-def _render_and_read(samples, fw, m, nested=False):
+def _render_and_read(samples, fw, m, nested=False, b=None):
     if nested:   # the literal position sits in a non-root class of the nested layout
         samples = [{"n": s, "top": 1} for s in samples]
-    b = pipeline.build(samples, types=pipeline.DEFAULT_TYPES)
+    if b is None:
+        b = pipeline.build(samples, types=pipeline.DEFAULT_TYPES)
     kw = {} if m is None else {"max_literals": m}
     text = pipeline.render(b.reg, fw, "nested" if nested else "flat", **kw)
     with program.Program(text, fw) as prog:
@@ -146,12 +153,17 @@ def execute(case):
     samples = _samples(case, strs)
     generalised = case["co"] == "pseudo_mix"
     all_short = all(len(s) < 20 for s in strs)
-    for fw in case["fws"]:
+    plan = [(fw, m, None) for fw in case["fws"] for m in case["ms"]]
+    if case["arrival"] == "samples" and case["co"] in ("none", "null"):
+        # one registry rendered by several generators in turn (what a user does to compare frameworks): the limits hold per rendering
+        shared = pipeline.build(samples, types=pipeline.DEFAULT_TYPES)
+        plan += [(fw, m, shared) for m in (16, 3) for fw in ("attrs", "pydantic", "dataclasses", "attrs", "base")]
+    for fw, m, shared_b in plan:
         fam = "pydantic" if fw == "sqlmodel" else fw
-        for m in case["ms"]:
-            shape = [f"n:{n}", f"m:{m}", case["len"], "co:" + case["co"], case["arrival"]]
+        if True:
+            shape = [f"n:{n}", f"m:{m}", case["len"], "co:" + case["co"], case["arrival"]] + (["shared_registry"] if shared_b is not None else [])
             try:
-                h, text = _render_and_read(samples, fw, m)
+                h, text = _render_and_read(samples, fw, m, b=shared_b)
                 execs += 1
             except Exception as e:
                 viol.append(core.viol("generation_or_load_fails", fam, shape, f"{type(e).__name__}: {e}"))
